@@ -36,7 +36,7 @@ PROFILES = {
     'C05': gen.profile(p_fail=0.35, p_retry=0.3),
     'C07': gen.profile(p_fail=0.2),
     'C08': gen.profile(p_fail=0.15, p_rec=0.25),
-    'C09': gen.profile(p_sw=0.45, p_oneof=0.1, p_rec=0.12),
+    'C09': gen.profile(p_sw=0.45, p_oneof=0.1, p_rec=0.12, p_share_decider=0.5, p_unnamed_switch=0.4),
     'C10': gen.profile(p_oneof=0.45, p_sw=0.1, p_rec=0.1, p_fail=0.25),
     'C11': gen.profile(p_rec=0.5, p_sw=0.1, p_oneof=0.1, p_rec_nested=0.45),
     'C12': gen.profile(p_retry=0.8, p_fail=0.5, n_max=6),
